@@ -479,6 +479,14 @@ SrvHandle ==
                 ELSE /\ WorkSendable /\ WorkSend(Msg("err", m.r, "none"))   \* unknown run: non-fatal error
                      /\ spc' = "recv"
                      /\ UNCHANGED <<step, beh, accepted, sigg, stdinClosed>>
+         [] m.t = "wsbad" ->                          \* work-start without run/step ID or with an undecodable
+              /\ WorkSendable /\ WorkSend(Msg("err", m.r, "step"))     \* payload: step-fatal error, nothing started
+              /\ spc' = "recv"
+              /\ UNCHANGED <<step, beh, accepted, sigg, stdinClosed>>
+         [] m.t = "bad" ->                            \* unknown message ID, signal without run ID or with an
+              /\ WorkSendable /\ WorkSend(Msg("err", m.r, "none"))     \* undecodable payload: non-fatal error
+              /\ spc' = "recv"
+              /\ UNCHANGED <<step, beh, accepted, sigg, stdinClosed>>
          [] m.t = "cd" ->                             \* client done: close stdin, end the loop
               /\ stdinClosed' = TRUE
               /\ spc' = "exit"
@@ -561,14 +569,15 @@ StepWritten(r) ==
                    accepted, srvRet>>
 
 \* ---- signal goroutine: CallSignal; an error goes to workDone (non-fatal)
-SigFinish(r) ==
+SigFinishAs(r, bad) ==
     /\ Alive /\ sigg[r] = "run"
-    /\ IF r \in BadSigRuns
+    /\ IF bad
          THEN WorkSendable /\ WorkSend(Msg("err", r, "none"))
          ELSE UNCHANGED <<workq, crashed>>
     /\ sigg' = [sigg EXCEPT ![r] = "done"]
     /\ UNCHANGED <<cvars, wvars, spc, sbuf, smsg, step, beh, workClosed, emu, hpc, hmsg, hdrain,
                    accepted, terminal, srvRet>>
+SigFinish(r) == SigFinishAs(r, r \in BadSigRuns)
 
 \* ---- closure handler (handleClosure)
 HRecv ==
